@@ -1,4 +1,5 @@
 import SimilarVerif.Lemmas.Inline
+import SimilarVerif.Lemmas.F32
 /-!
 # C16 — inline changes re-split each line losslessly; only changed words are emphasised
 
@@ -6,8 +7,9 @@ Model: `inlineChanges` (Model/Inline.lean) = `iter_inline_changes`.  The word se
 line (`tokenize_unicode_words`) is external: a parameter with the contract `SegsOK` (non-empty lines,
 each partitioned into non-empty words) checked on every harness case.  The second-level diff (Patience
 over the words) enters only through "its captured ops are a valid script" (C02), an explicit
-hypothesis `Walk e2 …`.  The two `< 0.5` gates are `Float32` comparisons: BOTH outcomes are covered
-(gate taken → plain expansion; not taken → refined expansion), so nothing depends on float behaviour.
+hypothesis `Walk e2 …`.  The two `< 0.5` gates are soft-float comparisons `F32.lt · F32.half` on the ratio
+bits (Model/F32.lean): BOTH outcomes are covered (gate taken → plain expansion; not taken → refined
+expansion), so nothing depends on float behaviour; `gate_fires_iff` says when they fire.
 Statements in Lemmas/Inline.lean; `type_of%` keeps them in sync.
 Observation while proving (outside C16's quantifier, which is about line texts): for a line diff built
 with `from_slices` that contains an EMPTY line slice the refined expansion drops that line's change
@@ -24,6 +26,10 @@ theorem gate1_is_plain : type_of% @inlineChanges_gate1 := @inlineChanges_gate1
 
 /-- second ratio gate taken: plain expansion -/
 theorem gate2_is_plain : type_of% @inlineChanges_gate2 := @inlineChanges_gate2
+
+/-- when a gate fires, in exact arithmetic (below 2^24 items): `2·a/b < 0.5` in `f32` iff `4·a < b` -/
+theorem gate_fires_iff {a b : Nat} (hb : b < 2^24) (hb0 : 0 < b) :
+    F32.lt (ratioF a b) F32.half = true ↔ 4 * a < b := F32.ratio_lt_half_iff hb hb0
 
 /-- the plain expansion has the tags, indices and values of `iter_changes` -/
 theorem plain_matches_changes : type_of% @inlinePlain_ok := @inlinePlain_ok
